@@ -1,5 +1,6 @@
 import EupsModel.Lemmas.Vro
 import EupsModel.Lemmas.VroSelect
+import EupsModel.Lemmas.VroC10
 /-! C03 — the version chosen is the one the Version Resolution Order designates.
 Property theorems only; the model is `Model/Vro.lean`, helper lemmas are in `Lemmas/Vro.lean`. -/
 namespace EupsModel.C03
@@ -261,9 +262,11 @@ example : isVT kVersion = true ∧ (exReq (some v10) 1).named = some v10 ∧ isE
 /-- An expression entry yields the highest declared version satisfying the expression: when some
 stack declares, for the flavor, a version that satisfies it, the `versionExpr` entry answers with a
 satisfying version, taken from the first stack in which it satisfies, such that no satisfying
-version anywhere on the path is newer.  (Needs the order properties of `version_cmp`, C10.) -/
-theorem C03_expr_entry_is_max (C : Ctx) (g : GoodOrd C.ord.cmp) (r : Req) (v : Str) (post : List Str)
-    (hv : r.named = some v) (hex : isExpr v = .ok true)
+version anywhere on the path is newer.  (`GoodOrdOn P`: the order properties of `version_cmp` on a class
+`P` of names containing every declared version name; `C03_expr_entry_is_max_conv` instantiates it
+with C10's comparator on conventional names.) -/
+theorem C03_expr_entry_is_max (C : Ctx) (P : Str → Prop) (g : GoodOrdOn P C.ord.cmp) (hP : DeclIn P C.db)
+    (r : Req) (v : Str) (post : List Str) (hv : r.named = some v) (hex : isExpr v = .ok true)
     (hsat : ∃ st ∈ C.db, ∃ w, declared st r.name w r.flavor = true ∧ C.ord.vmatch w v = true) :
     ∃ p, lookupEntry C r kVersionExpr post = .ok (.hit p kVersionExpr) ∧
       p.flavor = r.flavor ∧
@@ -281,7 +284,7 @@ theorem C03_expr_entry_is_max (C : Ctx) (g : GoodOrd C.ord.cmp) (r : Req) (v : S
     obtain ⟨st, hst, w, h1, h2⟩ := hsat
     exact absurd ⟨h1, h2⟩ (lookupExpr_none hl st hst w)
   | some p =>
-    obtain ⟨h1, ⟨st, h2, h3, h4⟩, h5⟩ := lookupExpr_some g hl
+    obtain ⟨h1, ⟨st, h2, h3, h4⟩, h5⟩ := lookupExpr_some g hP hl
     refine ⟨p, rfl, h1, ⟨st, h2, h3.1, h3.2, h4⟩, ?_⟩
     intro j st' w hj hd hm
     exact h5 j st' w hj ⟨hd, hm⟩
@@ -321,7 +324,7 @@ theorem C03_expr_at_version_entry (C : Ctx) (r : Req) (e v : Str) (post : List S
 /-- the order hypotheses are satisfiable: any comparison by a numeric key is a `GoodOrd`
 (here: the decimal value of the name) -/
 example : GoodOrd (fun a b => (Str.toNat a : Int) - Str.toNat b) :=
-  ⟨fun a => by simp, fun a b h => by omega, fun a b c h1 h2 => by omega⟩
+  ⟨fun a _ => by simp, fun a b _ _ h => by omega, fun a b c _ _ _ h1 h2 => by omega⟩
 
 /-- ... and so is the dotted-decimal order the correspondence runs and the examples use -/
 example : GoodOrd exCtx.ord.cmp := simpleCmp_good
@@ -334,8 +337,8 @@ example : lookupEntry exCtx (exReq (some [62, 61, 32, 50, 46, 48]) 1) kVersionEx
 /-- `latest` is not "the first stack that has the tag": it yields a declared version such that no
 version declared anywhere on the path (for the flavor) is newer; it says "continue" only when
 nothing is declared.  (`latest` reads `Ctx.dbLatest`: `_findLatestProduct` ignores `noCache`.) -/
-theorem C03_latest_entry_is_max (C : Ctx) (g : GoodOrd C.ord.cmp) (r : Req) (post : List Str)
-    (hl : C.recognized kLatest = true) :
+theorem C03_latest_entry_is_max (C : Ctx) (P : Str → Prop) (g : GoodOrdOn P C.ord.cmp) (hP : DeclIn P C.dbLatest)
+    (r : Req) (post : List Str) (hl : C.recognized kLatest = true) :
     (∀ p reason, lookupEntry C r kLatest post = .ok (.hit p reason) →
       reason = kLatest ∧ p.flavor = r.flavor ∧
       (∃ st, C.dbLatest[p.stack]? = some st ∧ declared st r.name p.version r.flavor = true) ∧
@@ -358,17 +361,68 @@ theorem C03_latest_entry_is_max (C : Ctx) (g : GoodOrd C.ord.cmp) (r : Req) (pos
   | none =>
     refine ⟨by intro p reason h; simp at h, ?_, by simp⟩
     intro _
-    exact lookupLatest_none g hll
+    exact lookupLatest_none g hP hll
   | some q =>
     refine ⟨?_, by intro h; simp at h, by simp⟩
     intro p reason h
     simp only [Except.ok.injEq, Outcome.hit.injEq] at h
     obtain ⟨rfl, rfl⟩ := h
-    obtain ⟨h1, h2, h3⟩ := lookupLatest_some g hll
+    obtain ⟨h1, h2, h3⟩ := lookupLatest_some g hP hll
     exact ⟨rfl, h1, h2, h3⟩
 
 /-- non-vacuity: in the example database the newest Linux version, 2.0, is in the second stack -/
 example : lookupEntry exCtx (exReq none 0) kLatest [] = .ok (.hit ⟨v20, sLinux, 1⟩ kLatest) := by decide
+
+/-! ## with C10's comparator: unconditional on conventional version names -/
+
+/-- `C03_expr_entry_is_max` with the model of `version_cmp` / `version_match` that C10 verifies
+(`c10Ord`), for databases whose version names are conventional (`convName`): no hypothesis on the
+order is left — C10's `C10_refl`, `C10_conv_total`, `C10_conv_trans` discharge it. -/
+theorem C03_expr_entry_is_max_conv (C : Ctx) (hord : C.ord = c10Ord) (hconv : DeclIn ConvName C.db)
+    (r : Req) (v : Str) (post : List Str) (hv : r.named = some v) (hex : isExpr v = .ok true)
+    (hsat : ∃ st ∈ C.db, ∃ w, declared st r.name w r.flavor = true ∧ c10Match w v = true) :
+    ∃ p, lookupEntry C r kVersionExpr post = .ok (.hit p kVersionExpr) ∧
+      p.flavor = r.flavor ∧
+      (∃ st, C.db[p.stack]? = some st ∧ declared st r.name p.version r.flavor = true ∧
+          c10Match p.version v = true ∧
+          ∀ (j : Nat) (st' : Stack), j < p.stack → C.db[j]? = some st' →
+            ¬ (declared st' r.name p.version r.flavor = true ∧ c10Match p.version v = true)) ∧
+      ∀ (j : Nat) (st : Stack) (w : Str), C.db[j]? = some st → declared st r.name w r.flavor = true →
+        c10Match w v = true → c10Cmp w p.version ≤ 0 := by
+  have g : GoodOrdOn ConvName C.ord.cmp := by rw [hord]; exact c10Cmp_good
+  have := C03_expr_entry_is_max C ConvName g hconv r v post hv hex (by rw [hord]; exact hsat)
+  rw [hord] at this
+  exact this
+
+/-- ... and `latest` likewise -/
+theorem C03_latest_entry_is_max_conv (C : Ctx) (hord : C.ord = c10Ord) (hconv : DeclIn ConvName C.dbLatest)
+    (r : Req) (post : List Str) (hl : C.recognized kLatest = true) :
+    (∀ p reason, lookupEntry C r kLatest post = .ok (.hit p reason) →
+      reason = kLatest ∧ p.flavor = r.flavor ∧
+      (∃ st, C.dbLatest[p.stack]? = some st ∧ declared st r.name p.version r.flavor = true) ∧
+      ∀ (j : Nat) (st : Stack) (w : Str), C.dbLatest[j]? = some st → declared st r.name w r.flavor = true →
+        c10Cmp w p.version ≤ 0) ∧
+    (lookupEntry C r kLatest post = .ok .skip →
+      ∀ st ∈ C.dbLatest, ∀ w, declared st r.name w r.flavor = false) ∧
+    lookupEntry C r kLatest post ≠ .ok .abort := by
+  have g : GoodOrdOn ConvName C.ord.cmp := by rw [hord]; exact c10Cmp_good
+  have := C03_latest_entry_is_max C ConvName g hconv r post hl
+  rw [hord] at this
+  exact this
+
+/-- non-vacuity: the example database has conventional version names, and with C10's comparator
+`p >= 2.0` is answered by 2.0 from stack 1 -/
+def exCtxC10 : Ctx := mkCtx c10Ord [sCurrent, sStable, sBeta] exDb .files [sLinux, sGeneric] []
+example : DeclIn ConvName exCtxC10.db := by
+  intro st hst d hd
+  simp only [exCtxC10, mkCtx, exDb, List.mem_cons, List.not_mem_nil, or_false] at hst
+  rcases hst with rfl | rfl
+  · simp only [List.mem_cons, List.not_mem_nil, or_false] at hd
+    subst hd; show VersionCmp.convName _ = true; decide
+  · simp only [List.mem_cons, List.not_mem_nil, or_false] at hd
+    rcases hd with rfl | rfl | rfl <;> (show VersionCmp.convName _ = true; decide)
+example : lookupEntry exCtxC10 (exReq (some [62, 61, 32, 50, 46, 48]) 1) kVersionExpr [sCurrent]
+    = .ok (.hit ⟨v20, sLinux, 1⟩ kVersionExpr) := by decide
 
 /-! ## the flavor loop -/
 
